@@ -55,7 +55,7 @@ def showVerdict (shape : Bool) : Verdict → String
   | .na => "n/a"
   | .fail => if shape then "fail F-C13a-shape (collection: a length-changing variant precedes another variant and a block is not wholly to its left)" else "fail"
   | .failDeletedRaises =>
-    "fail F-C13b-shape (location deleted entirely: an exception instead of the EmptyLocation)"
+    "fail deleted-location-raises (location deleted entirely: an exception instead of the EmptyLocation; the former F-C13b, repaired in /repo)"
     ++ (if shape then " F-C13a-shape (and the collection has the sequential-application shape)" else "")
 
 /-- `<strand> <k> (<s> <e>)*k` -/
